@@ -953,7 +953,13 @@ fn emit_fn(
         let mut self_ty = (*im.self_ty).clone();
         rw.visit_type_mut(&mut self_ty);
         let kept_ts = if kept.is_empty() { quote!() } else { quote!(<#(#kept),*>) };
-        impl_header = format!("impl{} {}", kept_ts, self_ty.to_token_stream());
+        let is_clone = im.trait_.as_ref().map_or(false, |(_, p, _)| p.segments.last().map_or(false, |s| s.ident == "Clone")) && d.name == "clone";
+        impl_header = if is_clone {
+            // `Clone` stays a trait impl (callers may need the bound, e.g. Option::cloned); Verus accepts `ensures` on it
+            format!("impl{} Clone for {}", kept_ts, self_ty.to_token_stream())
+        } else {
+            format!("impl{} {}", kept_ts, self_ty.to_token_stream())
+        };
     }
 
     // R14: a fn whose only statement is `tokio::spawn(async move { B });` is verified as `async fn` with body B
@@ -1412,6 +1418,30 @@ fn emit_fn(
                     continue;
                 }
             }
+            // a match inside a multi-line call expression: the hint belongs before the statement that contains it
+            let mut at = at;
+            if !h.after {
+                loop {
+                    let mut depth: i64 = 0;
+                    for l in body.iter().take(at) {
+                        if l.contains("/*vxhint*/") {
+                            continue;
+                        }
+                        for c in l.chars() {
+                            match c {
+                                '(' | '[' => depth += 1,
+                                ')' | ']' => depth -= 1,
+                                _ => {}
+                            }
+                        }
+                    }
+                    if depth > 0 && at > 0 {
+                        at -= 1;
+                    } else {
+                        break;
+                    }
+                }
+            }
             let pos = if h.after {
                 let mut depth: i64 = 0;
                 let mut e = at;
@@ -1449,7 +1479,9 @@ fn emit_fn(
             d.file, d.selector, d.name, lines.0, lines.1
         ));
         if !impl_header.is_empty() {
-            target.push(format!("{impl_header} {{"));
+            // the canary twin is not a trait member: it always lives in an inherent impl
+            let hdr = if canary { impl_header.replace(" Clone for ", " ") } else { impl_header.clone() };
+            target.push(format!("{hdr} {{"));
         }
         if !canary {
             for lt in &lifted_text {
